@@ -58,9 +58,67 @@ def seed_sweep(ctx, rng):
         seen[key] = sd
 
 
+def settings_sweep(ctx, rng):
+    """the generated workload does not depend on any scheduler or executor setting (small and large pools, pool counts, container mode, overcommit, policy)"""
+    base = {"duration": 40, "ticks_per_second": 10, "waiting_seconds_mean": 0.5, "num_pipelines": 3, "num_operators": 4, "random_seed": rng.randint(0, 10 ** 6)}
+    ref = None
+    for ram in (1, 4, 16, 40, 64, 256):
+        for extra in ({"cpus_per_pool": 1, "num_pools": 1, "multi_operator_containers": True, "allow_memory_overcommit": False, "scheduler_algo": "naive"},
+                      {"cpus_per_pool": 64, "num_pools": 4, "multi_operator_containers": False, "allow_memory_overcommit": True, "scheduler_algo": "overbook"}):
+            params = {**base, "ram_gb_per_pool": ram, **extra}
+            a = arrivals_only(params)
+            ctx.coverage["evaluations"] += 1
+            ctx.sit("settings_sweep")
+            if ref is None:
+                ref = (a, params)
+            elif a != ref[0]:
+                return viol(ctx, "workload-depends-on-policy", f"the generated workload changes with executor / scheduler settings (ram_gb_per_pool={ram}, {extra})",
+                            {"params": params, "other": ref[1]})
+    ctx.coverage["distinct_nontrivial"] += 1
+
+
+def dag_order_runs(ctx, rng):
+    """hand-built DAG workloads (several operators ready at once, several pipelines per tick) in both container modes: two runs in this process and one in a
+    fresh interpreter with another hash seed must give the same event log (pipeline / operator / container identifiers are random or process-global and
+    must not influence any decision)"""
+    for i in range(3 if ctx.quick() else 20):
+        tps = rng.choice([1, 2, 4])
+        pipes = []
+        for _ in range(rng.randint(2, 4)):
+            n = rng.randint(3, 6)
+            ops = []
+            for k in range(n):
+                # wide DAGs: many operators share a parent, so that several become ready in the same round
+                par = [] if k == 0 or rng.random() < 0.2 else [rng.randint(0, max(0, k // 2))]
+                ops.append({"parents": par, "ticks": rng.randint(1, 3), "mem": 0.5})
+            pipes.append({"prio": rng.choice([1, 2, 3]), "ops": ops})
+        arrivals = [[] for _ in range(30)]
+        for k in range(len(pipes)):
+            arrivals[rng.randint(0, 3)].append(k)
+        algo = ["priority", "naive", "overbook", "priority"][i % 4]
+        params = {"duration": 30 / tps, "ticks_per_second": tps, "num_pools": rng.choice([1, 2, 3]), "cpus_per_pool": rng.choice([4, 16]), "ram_gb_per_pool": 64,
+                  "multi_operator_containers": False if i % 2 == 0 else True, "allow_memory_overcommit": algo == "overbook"}
+        wl = {"pipes": pipes, "arrivals": arrivals, "tps": tps}
+        spec = {"params": params, "algo": algo, "workload": wl}
+        a = det_run.canonical(params, algo, workload=wl)
+        b = det_run.canonical(params, algo, workload=wl)
+        c = child(spec, rng.randint(1, 10 ** 6))
+        ctx.coverage["evaluations"] += 3
+        ctx.sit("dag_workload_runs_" + ("single_op" if not params["multi_operator_containers"] else "multi_op"))
+        for name, other in (("a second run in the same process", b), ("a fresh interpreter with another PYTHONHASHSEED", c)):
+            if other != a:
+                viol(ctx, "not-reproducible", f"a DAG workload gives a different run in {name} ({algo}, multi={params['multi_operator_containers']}): {first_diff(a, other)}",
+                     {"params": params, "algo": algo, "workload": wl})
+                break
+        else:
+            ctx.coverage["distinct_nontrivial"] += 1
+
+
 def run(ctx):
     rng = random.Random(ctx.seed)
     seed_sweep(ctx, rng)
+    settings_sweep(ctx, rng)
+    dag_order_runs(ctx, rng)
     n = 4 if ctx.quick() else 24
     for i in range(n):
         algo = ["priority", "naive", "priority-pool", "overbook", "template"][i % 5]
